@@ -387,6 +387,11 @@ func ruleK1(p *Prog, r *Report) {
 				return isLim(bo.X) || isLim(bo.Y)
 			})
 			r.Decide(lim, R, "limit-compared:"+name, p.InstrPos(in), "rejection depends on a comparison with maxCollisionLimitPerDigest", "collision-limit rejection does not depend on a comparison with maxCollisionLimitPerDigest")
+			// (2b) whatever the owner: the rejection does not depend on the address the map lives under
+			byOwner := controlDependsOnValue(top, b, func(v ssa.Value) bool {
+				return typeName(v.Type()) == "Address" || typeName(v.Type()) == "SlabID"
+			})
+			r.Decide(!byOwner, R, "limit-whatever-the-owner:"+name, p.InstrPos(in), "the rejection does not depend on the owner address", "the collision-limit rejection depends on the address (or slab id) the map is stored under: maps of some owners - temporary ones, say, which can later be copied into an account - grow past the limit unchecked")
 			// (3) only for absent keys: errors.As(err, *KeyNotFoundError) of an element Get with the key parameter
 			var getCall *ssa.Call
 			knf := controlDependsOnValue(top, b, func(v ssa.Value) bool {
